@@ -86,6 +86,39 @@ Section C34.
     exists cs, block_checks exact r bs = Some cs /\ Forall (check_holds H) cs.
   Proof. intros exact ok r bs [_ [A|A]]; [discriminate|exact A]. Qed.
 
+  (* Every configuration (every combination of the generated VerifyConfig
+     flags) that leaves body validation enabled makes at least the default
+     comparisons: flags can only add checks.  So C34_commit / C34_commit_dijkstra /
+     C34_byron / C34_bind* hold under every such configuration. *)
+  Theorem C34_config_all : forall exact ok r bs cfg,
+    flag_on Gen.skip_flag_index cfg = false ->
+    decode_ok_cfg H exact Gen.skip_flag_index ok r bs cfg ->
+    exists cs, block_checks exact r bs = Some cs /\ Forall (check_holds H) cs.
+  Proof.
+    intros exact ok r bs cfg Hs D. unfold decode_ok_cfg in D. rewrite Hs in D.
+    eapply C34_config_default; exact D.
+  Qed.
+  (* what a validating configuration accepts, the default configuration
+     accepts too (given the default's own structural acceptance) *)
+  Theorem C34_config_superset : forall exact ok r bs cfg,
+    flag_on Gen.skip_flag_index cfg = false ->
+    decode_ok_cfg H exact Gen.skip_flag_index ok r bs cfg ->
+    ok (repeat false (length Gen.config_flags)) = true ->
+    decode_ok_cfg H exact Gen.skip_flag_index ok r bs (repeat false (length Gen.config_flags)).
+  Proof.
+    intros exact ok r bs cfg Hs D Hok. destruct (C34_config_all _ _ _ _ _ Hs D) as (cs & E & F).
+    unfold decode_ok_cfg, decode_ok. split; [exact Hok|]. right. eauto.
+  Qed.
+  Theorem C34_config_table : forall exact ok r bs,
+    Forall (fun cfg => decode_ok_cfg H exact Gen.skip_flag_index ok r bs cfg ->
+              exists cs, block_checks exact r bs = Some cs /\ Forall (check_holds H) cs)
+           (validating_configs (length Gen.config_flags) Gen.skip_flag_index).
+  Proof.
+    intros exact ok r bs. apply Forall_forall. intros cfg Hin D.
+    apply filter_In in Hin. destruct Hin as [_ Hn]. apply negb_true_iff in Hn.
+    eapply C34_config_all; eauto.
+  Qed.
+
   (* Binding.  D is the set of byte strings on which H is assumed
      collision-free with digests of n bytes (explicit premises; an
      idealisation of Blake2b-256, never an axiom).  Two blocks of the same era
@@ -162,6 +195,14 @@ End C34.
 Print Assumptions C34_commit.
 Print Assumptions C34_bind.
 Print Assumptions C34_byron.
+
+(* the generated flag table: the skip flag is where the model looks for it,
+   and half of all flag combinations leave validation enabled (non-vacuity) *)
+Theorem C34_config_flags :
+  nth_error Gen.config_flags Gen.skip_flag_index = Some "SkipBodyHashValidation"%string /\
+  length (validating_configs (length Gen.config_flags) Gen.skip_flag_index) = Nat.pow 2 (length Gen.config_flags - 1) /\
+  In (repeat false (length Gen.config_flags)) (validating_configs (length Gen.config_flags) Gen.skip_flag_index).
+Proof. vm_compute. repeat split; auto 40. Qed.
 
 (* With the exact-length check in ByronTransaction.UnmarshalCBOR
    (fixes/C34-byron-tx-exact-length.patch) every byte of a transaction outside
